@@ -57,14 +57,14 @@ inductive Solid (s : St) : Key → Prop
   | mk (k : Key) (n : Node) : s.nodes k = some n →
       (n.kind = .firewall → n.lastVerified = s.epoch) →
       (∀ d o, (d, o) ∈ n.deps →
-        ∃ nd, s.nodes d = some nd ∧ nd.value = o ∧ (nd.kind = .normal → nd.tfc = n.seen d)) →
+        ∃ nd, s.nodes d = some nd ∧ nd.value = o ∧ (nd.kind ≠ .firewall → nd.tfc = n.seen d)) →
       (∀ d o, (d, o) ∈ n.deps → Solid s d) → Solid s k
 
 /-- consistent down to the firewall boundary, fingerprints of normal callees current -/
 inductive NGood (s : St) : Key → Prop
   | mk (k : Key) (n : Node) : s.nodes k = some n →
       (∀ d o, (d, o) ∈ n.deps →
-        ∃ nd, s.nodes d = some nd ∧ nd.value = o ∧ (nd.kind = .normal → nd.tfc = n.seen d)) →
+        ∃ nd, s.nodes d = some nd ∧ nd.value = o ∧ (nd.kind ≠ .firewall → nd.tfc = n.seen d)) →
       (∀ d o nd, (d, o) ∈ n.deps → s.nodes d = some nd → nd.kind = .normal → NGood s d) → NGood s k
 
 /-- an execution of `x` from state `s` is justified: never computed, or a recorded dependency has
@@ -89,7 +89,7 @@ structure Inv (p : Program) (s : St) : Prop where
     (nd.kind = .firewall → d ∈ n.tfc) ∧ (nd.kind = .normal → ∀ f, f ∈ n.seen d → f ∈ n.tfc)
   solid : ∀ k n, s.nodes k = some n → n.lastVerified = s.epoch → Solid s k
   clean : ∀ x n, s.nodes x = some n → ∀ y o, (y, o) ∈ n.deps → s.dirty x y = false →
-    ∃ ny, s.nodes y = some ny ∧ ny.value = o ∧ (ny.kind = .normal → ny.tfc = n.seen y ∧ NGood s y)
+    ∃ ny, s.nodes y = some ny ∧ ny.value = o ∧ (ny.kind ≠ .firewall → ny.tfc = n.seen y) ∧ (ny.kind = .normal → NGood s y)
 
 structure Frame (p : Program) (s s' : St) : Prop where
   epoch : s'.epoch = s.epoch
@@ -144,7 +144,6 @@ theorem cur_exec {p : Program} (wf : WF p) {s : St} {k : Key} {d : NodeDef} (hp 
     cur p s k = some v := by
   have : cur p s k = evalProg (evalSpec p (inputsOf s) (extOf p s) k) d.prog := by
     simp only [cur, evalSpec, hp]
-    cases hi : d.kind <;> first | rfl | exact absurd hi h1 | exact absurd hi h2
   rw [this]
   apply tr
   intro d' o hm
@@ -266,7 +265,7 @@ theorem NGood.solid_of_settled {p : Program} {s : St} (inv : Inv p s) {k : Key} 
     | normal =>
       refine ih d o nd hm hnd hkn nd hnd (by rw [hkn]; decide) ?_
       intro f hf
-      rw [hacc hkn] at hf
+      rw [hacc (by rw [hkn]; decide)] at hf
       exact hall f (snm hkn f hf)
     | projection => exact absurd hkn (inv.noProj d nd hnd)
 
